@@ -81,32 +81,78 @@ def _run(kind, h, w=None):
 
 
 def replay_detector(d):
-    """Replay with real scipy chi2 and the real quadratic form (1-d residuals r_j = sqrt(q_j), S = 1; dimension by stacking)."""
+    """Replay on the real detector classes (1-d residuals r_j = sqrt(q_j), S = 1; dimension by stacking).
+
+    Level 1: everything real (scipy chi2 included); the (alpha, dof) the real code asks the quantile for are recorded
+    and compared with the documented degrees of freedom, the flag with `statistic >= real chi2.isf(alpha, documented dof)`.
+    Level 2 (only if level 1 shows nothing, and the model carries bound values): chi2.isf answers with the model's bound
+    for the requested arguments - the detector code is still the real one; this reproduces comparisons that differ only
+    when the statistic equals the bound (>= versus >), which no floating-point quantile hits."""
     from resonaate.estimation import maneuver_detection as MD
+    from resonaate.physics import statistics as ST
     from scipy.stats import chi2
 
     kind, qs, ds, alpha = d["kind"], d["q"], d["d"], d["alpha"]
-    det = {"standard": lambda: MD.StandardNis(alpha), "sliding": lambda: MD.SlidingNis(alpha, window_size=d.get("w", 2)),
-           "fading": lambda: MD.FadingMemoryNis(alpha, delta=d.get("delta", 0.5))}[kind]()
-    flag = None
-    for q, dim in zip(qs, ds):
-        r = np.zeros(dim)
-        r[0] = np.sqrt(q)
-        flag = det(r, np.eye(dim))
-    h = len(qs)
-    if kind == "standard":
-        stat, nu = qs[-1], ds[-1]
-    elif kind == "sliding":
-        w = d.get("w", 2)
-        stat, nu = sum(qs[-w:]), sum(ds[-w:])
-    else:
+    mk = {"standard": lambda: MD.StandardNis(alpha), "sliding": lambda: MD.SlidingNis(alpha, window_size=d.get("w", 2)),
+          "fading": lambda: MD.FadingMemoryNis(alpha, delta=d.get("delta", 0.5))}[kind]
+
+    def documented(hh):
+        if kind == "standard":
+            return qs[hh - 1], ds[hh - 1]
+        if kind == "sliding":
+            w = d.get("w", 2)
+            return sum(qs[max(0, hh - w):hh]), sum(ds[max(0, hh - w):hh])
         de = d.get("delta", 0.5)
-        stat = (1 + de) * sum(de ** (h - 1 - j) * qs[j] for j in range(h))
-        nu = (sum(ds) / h) * (1 + de) / (1 - de)
-    bound = chi2.isf(alpha, nu)
-    exp = stat >= bound
-    bad = (bool(flag) != bool(exp) and abs(stat - bound) > 1e-9 * max(1, bound)) or abs(det.metric - stat) > 1e-9 * max(1, abs(stat))
-    return bad, {"flag": bool(flag), "expected": bool(exp), "metric": float(det.metric), "statistic": float(stat), "bound": float(bound), "dof": float(nu)}
+        return (1 + de) * sum(de ** (hh - 1 - j) * qs[j] for j in range(hh)), (sum(ds[:hh]) / hh) * (1 + de) / (1 - de)
+
+    class Rec:
+        def __init__(self, table=None):
+            self.calls, self.table = [], table
+
+        def isf(self, a, nu):
+            self.calls.append((float(a), float(nu)))
+            if self.table is not None:
+                return self.table[len(self.calls) - 1]
+            return chi2.isf(a, nu)
+
+    def run(table=None):
+        det, rec, out = mk(), Rec(table), []
+        with shadow(ST, chi2=rec):
+            for k, (q, dim) in enumerate(zip(qs, ds)):
+                r = np.zeros(dim)
+                r[0] = np.sqrt(q)
+                flag = det(r, np.eye(dim))
+                stat, nu = documented(k + 1)
+                a_req, nu_req = rec.calls[k] if len(rec.calls) > k else (None, None)
+                bound = table[k] if table is not None else chi2.isf(alpha, nu)
+                out.append({"step": k + 1, "flag": bool(flag), "metric": float(det.metric), "statistic": float(stat), "documented_dof": float(nu),
+                            "requested_dof": nu_req, "requested_alpha": a_req, "bound": float(bound)})
+        return out
+
+    def bad(o, exact):
+        if o["requested_dof"] is None or abs(o["requested_dof"] - o["documented_dof"]) > 1e-9 * max(1, o["documented_dof"]):
+            return "chi-square bound requested for the wrong degrees of freedom"
+        if abs(o["requested_alpha"] - alpha) > 1e-12:
+            return "chi-square bound requested for the wrong significance"
+        if abs(o["metric"] - o["statistic"]) > 1e-9 * max(1, abs(o["statistic"])):
+            return "metric is not the documented statistic"
+        exp = o["statistic"] >= o["bound"]
+        if o["flag"] != exp and (exact or abs(o["statistic"] - o["bound"]) > 1e-9 * max(1, o["bound"])):
+            return "flag differs from (statistic >= bound)"
+        return None
+
+    out = run()
+    for o in out:
+        why = bad(o, False)
+        if why:
+            return True, {"why": why, **o}
+    if d.get("bounds"):
+        out2 = run(list(d["bounds"]))
+        for o in out2:
+            why = bad(o, True)
+            if why:
+                return True, {"why": why + " (chi2.isf answering with the counterexample's bound value)", **o}
+    return False, out[-1]
 
 
 def o_detector(rep, kind, h, w=None):
@@ -120,6 +166,13 @@ def o_detector(rep, kind, h, w=None):
         if kind == "fading":
             d["delta"] = mfloat(m, z3.Real("delta"))
         return d
+
+    def inputs_with_bounds(calls):
+        def f(m):
+            d = inputs(m)
+            d["bounds"] = [mfloat(m, ISF(_tr(a), _tr(nu))) for a, nu in calls]
+            return d
+        return f
 
     n = 0
     seen = set()
@@ -153,7 +206,7 @@ def o_detector(rep, kind, h, w=None):
             goals.append(z3.And(_tr(calls[k][0]) == alpha.t, _tr(calls[k][1]) == nu))
         seen.add(tuple(bool(f) for f in flags))
         n += 1
-        rep.prove(f"{kind}[h={h}{',w=' + str(w) if w else ''}]#{n}", z3.And(*goals), r.constraints, inputs=inputs, replay=replay_detector,
+        rep.prove(f"{kind}[h={h}{',w=' + str(w) if w else ''}]#{n}", z3.And(*goals), r.constraints, inputs=inputs_with_bounds(calls), replay=replay_detector,
                   sample=f"{kind}: flag == (documented statistic >= chi2.isf(alpha, documented dof)); metric == statistic, after every step of the history")
     if len(seen) < 2:
         rep.error("reach", "both outcomes (detection / no detection) must be reachable")
